@@ -38,10 +38,11 @@
 /*============================================================================*/
 
 int fb_cmp_dig(const fb_t a, dig_t b) {
-	dig_t r = b;
+	dig_t r = a[0] ^ b;
 
-	for (int i = 0; i < RLC_FB_DIGS; i++) {
-		r ^= a[i];
+	/* The higher digits must all be zero (or-ing, not folding them into b). */
+	for (int i = 1; i < RLC_FB_DIGS; i++) {
+		r |= a[i];
 	}
 
 	return (r == 0 ? RLC_EQ : RLC_NE);
